@@ -627,9 +627,10 @@ def run_check(engine, prop, tier, master, runs=None, budget_s=None, out=print):
         wall_s=round(wall, 2),
         violations=len(violation_lines),
     )
-    os.makedirs(os.path.join(VERIF, 'evidence'), exist_ok=True)
-    with open(os.path.join(VERIF, 'evidence', prop + '.json'), 'w') as f:
-        json.dump(ev, f, indent=1, sort_keys=True)
+    if not os.environ.get('VERIF_NO_EVIDENCE'):
+        os.makedirs(os.path.join(VERIF, 'evidence'), exist_ok=True)
+        with open(os.path.join(VERIF, 'evidence', prop + '.json'), 'w') as f:
+            json.dump(ev, f, indent=1, sort_keys=True)
 
     out('runs=%d distinct_nontrivial=%d inconclusive=%d faults=%s wall=%.1fs' %
         (acc.evaluations, len(acc.digests), acc.inconclusive,
